@@ -590,7 +590,9 @@ def part_b(ctx, res):
             if sp:
                 r, o = sp[0]
                 tx = chain.make_tx(keys, u, [r], [(o.value - 1, 1)])
-                origin = rng.randrange(0, n_nodes)
+                # from a node with the fewest connections (an end of a line: the transaction has to be relayed to reach the rest)
+                deg = [sum(1 for e_ in edges if k_ in e_) for k_ in range(n_nodes)]
+                origin = min(range(n_nodes), key=lambda k_: (deg[k_], (k_ + ri) % n_nodes))
                 lp = net.nodes[origin]
                 if lp.chain_manager.add_transaction_to_pool(tx):
                     lp.network_manager.broadcast_transaction(tx)
@@ -600,6 +602,36 @@ def part_b(ctx, res):
                     if tx.hash() not in [t.hash() for t in lpk.chain_manager.transaction_pool]:
                         res.violations.append({**info, "kind": "a broadcast transaction did not reach node %d's pool" % k})
                 res.count("tx_flood_checked")
+            # spends of two sibling outputs of one earlier transaction, broadcast one after the other, both reach every pool: a block
+            # with a transaction that pays two outputs (a payment and its change, say) is adopted by every node first
+            busy = {i_.output_reference for lp_ in net.nodes for t_ in lp_.chain_manager.transaction_pool for i_ in t_.inputs}
+            sp1 = [(r, o) for r, o in u.items() if o.public_key.public_key in keys.pks and o.value >= 4 and r not in busy]
+            if sp1:
+                from skepticoin.datatypes import OutputReference
+                r1, o1 = sp1[-1]
+                split_tx = chain.make_tx(keys, u, [r1], [(o1.value // 2, 0), (o1.value - o1.value // 2, 1)])
+                hb_ = cs0.block_by_hash[cs0.current_chain_hash]
+                sb = chain.mine(cs0, cs0.current_chain_hash, [split_tx], keys.pk(0), hb_.timestamp + 10)
+                for lpk in net.nodes:
+                    lpk.chain_manager.set_coinstate(lpk.chain_manager.coinstate.add_block(sb, sb.timestamp + 5))
+                u_ = net.nodes[0].chain_manager.coinstate.unspent_transaction_outs_by_hash[sb.hash()]
+                sib = [OutputReference(split_tx.hash(), i_) for i_ in (0, 1)]
+                origin = rng.randrange(0, n_nodes)
+                lp = net.nodes[origin]
+                sibs = [chain.make_tx(keys, u_, [x], [(u_[x].value - 1, 2)]) for x in sib]
+                for t_ in sibs:
+                    if lp.chain_manager.add_transaction_to_pool(t_):
+                        lp.network_manager.broadcast_transaction(t_)
+                    net.collect()
+                    net.drain(with_steps=False)
+                for k, lpk in enumerate(net.nodes):
+                    have = [t.hash() for t in lpk.chain_manager.transaction_pool]
+                    for n_, t_ in enumerate(sibs):
+                        if t_.hash() not in have:
+                            res.violations.append({**info, "kind": "of two spends of sibling outputs of one earlier transaction, "
+                                                                   "broadcast one after the other, the %s did not reach node %d's pool"
+                                                                   % (["first", "second"][n_], k), "tx": t_.serialize().hex()})
+                res.count("sibling_spends_flood_checked")
         if early_tx is not None and len(heads) == 1 and not net.errors:
             cs0 = net.nodes[0].chain_manager.coinstate
             u0 = cs0.unspent_transaction_outs_by_hash[cs0.current_chain_hash]
